@@ -79,6 +79,12 @@ impl Ctx {
     }
 }
 
+/// Properties whose code under test parses attacker-controlled bytes: the case being evaluated
+/// is kept on disk so that a process abort can be attributed (see `check`).
+pub fn inflight_enabled(prop: &str) -> bool {
+    matches!(prop, "C08" | "C09")
+}
+
 pub fn load_known_findings() -> Vec<KnownFinding> {
     let path = format!("{}/known_findings.json", verif_dir());
     let Ok(text) = std::fs::read_to_string(&path) else {
@@ -406,6 +412,13 @@ where
                     TestRng::from_seed(RngAlgorithm::ChaCha, &seed),
                 );
                 let strategy = make_strategy();
+                let inflight_path = if inflight_enabled(&ctx.prop) {
+                    let dir = format!("{}/inflight", out_dir());
+                    let _ = std::fs::create_dir_all(&dir);
+                    Some(format!("{dir}/{}-{sub}-{shard}.json", ctx.prop))
+                } else {
+                    None
+                };
                 let tally = RefCell::new(Tally::default());
                 let failed = std::cell::Cell::new(false);
                 let harness_errors: RefCell<Vec<String>> = RefCell::new(Vec::new());
@@ -415,6 +428,13 @@ where
                         return Ok(());
                     }
                     let mut local = Tally::default();
+                    if let Some(path) = &inflight_path {
+                        // Crash isolation: if the code under test aborts the process (not a panic:
+                        // e.g. an allocation of an attacker-chosen size), the `check` wrapper
+                        // finds the case that was being evaluated here and replays it alone.
+                        let doc = json!({"property": ctx.prop, "sub": sub, "seed": ctx.seed, "tier": ctx.tier.name(), "signature": format!("{}/process-abort", ctx.prop), "message": "the process was aborted while this case was being evaluated", "case": serde_json::to_value(&case).unwrap_or(Value::Null)});
+                        let _ = std::fs::write(path, serde_json::to_vec(&doc).unwrap_or_default());
+                    }
                     let r = guard(|| exec(&case, &mut local));
                     match r {
                         Ok(Ok(())) => {
@@ -478,6 +498,9 @@ where
                     Err(TestError::Abort(reason)) => {
                         inconclusive.push(format!("shard {shard}: proptest aborted: {reason}"));
                     }
+                }
+                if let Some(path) = &inflight_path {
+                    let _ = std::fs::remove_file(path);
                 }
                 let mut m = merged.lock().unwrap();
                 m.0.merge(tally.into_inner());
